@@ -66,3 +66,14 @@ prop(id="C04", vfile="Properties/C04.v", runs=_did_runs, rule=DID_RULE,
      assumptions=CHAIN_ASSUME + ["sig_binds (a signature value verifies for at most one message) is an explicit premise of C04_no_replay"])
 prop(id="C05", vfile="Properties/C05.v", runs=_did_runs, rule=DID_RULE, assumptions=CHAIN_ASSUME)
 prop(id="C11", vfile="Properties/C11.v", runs=_did_runs, rule=DID_RULE, assumptions=CHAIN_ASSUME)
+
+
+LIST_RULE = ("aollist profile: genesis-seeded states (consistent counters) with 3-15 topics (10%: 105 topics under one owner) over owners "
+             "with 20-, 32- and 1-byte addresses whose leading bytes equal each other's length bytes, topic names that are prefixes of one "
+             "another, 0-4 writers per topic, then a few blocks of create/add-writer/delete-writer; every owner's topics and a sample of "
+             "writer lists are paged through with limits {1,2,3,7,100,2^64-1}, both directions, key and offset style, with/without "
+             "count_total (each page request is answered by the model too), plus default-page, offset+key and malformed requests")
+prop(id="C13", vfile="Properties/C13.v",
+     runs=lambda tier, seed: [dict(profile="aollist", seed=seed, n=_sizes(tier, 30, 2000), extra=["-blocks", "4"]),
+                              dict(profile="aol", seed=seed, n=_sizes(tier, 20, 1000), extra=["-blocks", str(_sizes(tier, 10, 30))])],
+     rule=LIST_RULE + " || " + AOL_RULE, assumptions=CHAIN_ASSUME + ["query.Paginate is modelled from the SDK source (Pagination/Model.v) and checked differentially"])
